@@ -810,6 +810,7 @@ func (ex *Exec) execInstrs(fr *Frame, b *ssa.BasicBlock, i int, st *State) {
 		case *ssa.MakeClosure:
 			ex.doMakeClosure(fr, st, x)
 		case *ssa.Call:
+			ex.ghostBefore(fr, st, x)
 			ex.doCall(fr, st, x, x.Common(), func(st2 *State, res SVal) {
 				st2.vals[x] = res
 				ex.ghostAsserts(fr, st2, x)
@@ -1401,6 +1402,44 @@ func (fr *Frame) callSiteName(call *ssa.Call) string {
 		}
 	}
 	return want + "#?"
+}
+
+// ghostBefore: `before <site> assert e` clauses, evaluated just before the call with arg0..argN bound
+// to the actual arguments.
+func (ex *Exec) ghostBefore(fr *Frame, st *State, call *ssa.Call) {
+	if fr.block == nil {
+		return
+	}
+	var site string
+	for _, c := range fr.block.Clauses {
+		if c.Kind != "before" {
+			continue
+		}
+		if site == "" {
+			site = fr.callSiteName(call)
+		}
+		if c.Names[0] != site {
+			continue
+		}
+		env := ex.loopEnv(fr, nil, st)
+		for i, a := range call.Call.Args {
+			sv := ex.val(fr, st, a)
+			if sv.Loc == nil && sv.Tup == nil {
+				env[fmt.Sprintf("arg%d", i)] = CV{T: sv.T, Sort: ex.w.sortOf(a.Type()), Type: a.Type()}
+			}
+		}
+		ctx := &EvalCtx{ex: ex, st: st, old: fr.pre, env: env}
+		t, err := ctx.evalBool(c.E)
+		if err != nil {
+			ex.errorf("%s: before %s assert: %v", fnName(fr.fn), site, err)
+			continue
+		}
+		label := c.Label
+		if label == "" {
+			label = site
+		}
+		ex.check(fr, st, "assert", label, call.Pos(), t)
+	}
 }
 
 // ghostAsserts: `after <site> assert e` clauses: proved at that point, then assumed (proof stepping stones).
